@@ -185,6 +185,54 @@ class Repo:
 
         handle(mi.tree.body)
 
+    # ------------------------------------------------------------------ source sites
+    def locate(self, relpath: str, lineno: int, col: int, end_lineno: int = 0, end_col: int = 0):
+        """-> (qualified name of the innermost enclosing function, normalised source text of
+        the expression starting at that position) for reports and exception keys."""
+        mi = self.by_relpath.get(relpath)
+        if mi is None:
+            return "?", "?"
+        idx = getattr(mi, "_site_index", None)
+        if idx is None:
+            idx = {}
+            funcs = []
+
+            def visit(node, qual):
+                for ch in ast.iter_child_nodes(node):
+                    q = qual
+                    if isinstance(ch, (ast.FunctionDef, ast.AsyncFunctionDef, ast.ClassDef)):
+                        q = f"{qual}.{ch.name}" if qual else ch.name
+                        if not isinstance(ch, ast.ClassDef):
+                            funcs.append((ch.lineno, getattr(ch, "end_lineno", ch.lineno), q))
+                    if isinstance(ch, ast.expr) and hasattr(ch, "lineno"):
+                        k = (ch.lineno, ch.col_offset)
+                        # outermost expression starting at a position wins for calls; keep all by type
+                        idx.setdefault(k, []).append(ch)
+                    visit(ch, q)
+
+            visit(mi.tree, "")
+            mi._site_index = idx
+            mi._func_spans = funcs
+        fn = "?"
+        best = None
+        for lo, hi, q in mi._func_spans:
+            if lo <= lineno <= hi and (best is None or lo >= best[0]):
+                best = (lo, q)
+        if best:
+            fn = best[1]
+        nodes = idx.get((lineno, col), [])
+        text = "?"
+        if nodes:
+            # the largest expression starting here that is a Call or Subscript, else the largest
+            exact = [n for n in nodes if (getattr(n, "end_lineno", 0), getattr(n, "end_col_offset", 0)) == (end_lineno, end_col)]
+            pref = exact or [n for n in nodes if isinstance(n, (ast.Call, ast.Subscript))] or nodes
+            n = max(pref, key=lambda x: (getattr(x, "end_lineno", 0), getattr(x, "end_col_offset", 0)))
+            try:
+                text = ast.unparse(n)
+            except Exception:
+                text = "?"
+        return fn, text
+
     # ------------------------------------------------------------------ digest
     def note(self, mi: ModuleInfo):
         if mi.relpath not in self.consulted:
